@@ -52,6 +52,10 @@ Proof. exact refines_counts. Qed.
 (* the unrestricted statement is FALSE of the code: flattening on entry removes SHIFT_COORDS, so coordinates
    of later-appended DETECTOR / QUBIT_COORDS differ from Stim's.  Witness:
    Circuit("SHIFT_COORDS(1)\nM 0").append_from_stim_program_text("DETECTOR(0) rec[-1]") *)
+(* Stim's flattened() leaves no SHIFT_COORDS instruction behind, for any nesting of REPEAT blocks (so a wrapped circuit that
+   still contains one is not the flattened circuit: the run-time comparison `not-flattened` of harness/props/c17.py) *)
+Theorem C17_flattened_has_no_shift : forall c, forallb (fun i => negb (is_shift i)) (flattened_l c) = true.
+Proof. exact flattened_no_shift. Qed.
 Theorem C17_refine_refuted : exists h, forall r, ref_run h rst0 r -> ~ refines (t_run h) r.
 Proof. exact refine_refuted. Qed.
 
